@@ -569,6 +569,21 @@ def trunc_norm_rule(ctx):
                 f = e.func
                 recv = f.value if isinstance(f, ast.Attribute) and not (isinstance(f.value, ast.Name) and f.value.id in ("torch", "np", "math", "F")) and not (isinstance(f.value, ast.Attribute) and norm_text(f.value) == "torch.special") else None
                 ops = ([recv] if recv is not None else []) + list(e.args)
+                if name == "cdf" and recv is not None and isinstance(recv, ast.Call) and last(recv) == "Normal" and len(e.args) == 1:
+                    # Normal(m, s).cdf(b) = 1/2 (1 + erf((b - m) / (s sqrt 2)))
+                    loc, sc = ev(kw(recv, "loc", 0)), ev(kw(recv, "scale", 1))
+                    b = ev(e.args[0])
+                    if sc[0] == "num" and b[0] in ("num", "aff") and loc[0] in ("num", "aff"):
+                        z = scale(add(b, scale(loc, -1.0)), 1.0 / (sc[1] * math.sqrt(2.0)))
+                        if z[0] == "num":
+                            return ("num", 0.5 * (1.0 + math.erf(z[1])))
+                        return ("lin", {(z[1], z[2]): 0.5}, 0.5)
+                if name == "ndtr" and len(ops) == 1:
+                    z = scale(ev(ops[0]), 1.0 / math.sqrt(2.0))
+                    if z[0] == "num":
+                        return ("num", 0.5 * (1.0 + math.erf(z[1])))
+                    if z[0] == "aff":
+                        return ("lin", {(z[1], z[2]): 0.5}, 0.5)
                 if name == "erf" and len(ops) == 1:
                     a = ev(ops[0])
                     if a[0] == "num":
@@ -784,6 +799,12 @@ def bcast_rule(ctx):
 
             def ctor_shape(e, depth=0):
                 if e is None or depth > 6:
+                    return None
+                if isinstance(e, ast.Name):
+                    # a constructor local: every assignment to it builds the same expression
+                    vals = [a.value for a in ast.walk(init.node) if isinstance(a, ast.Assign) and len(a.targets) == 1 and isinstance(a.targets[0], ast.Name) and a.targets[0].id == e.id]
+                    if vals and len({norm_text(v) for v in vals}) == 1:
+                        return ctor_shape(vals[0], depth + 1)
                     return None
                 if isinstance(e, ast.Call):
                     nm = last(e)
